@@ -208,7 +208,7 @@ func oracleC11(r *Result) {
 				}
 			}
 		}
-		if t.Msg.Probe {
+		if t.Msg.Probe && len(storageFaults(t)) == 0 {
 			w.probe("probe_" + t.Msg.ProbeEP)
 			ok := false
 			switch t.Msg.ProbeEP {
@@ -274,6 +274,8 @@ func (g G) planC11() *Plan {
 	p := &Plan{Format: 1, Property: "C11", Mode: "serial", Family: "metadata-bootstrap"}
 	p.World = g.drawWorld(worldOpts{maxSPs: 2, maxUsers: 2, maxReplicas: 2, hardPct: 10, issuerVariety: true, endpointVariety: true, metaVariety: true, signReqVariety: true,
 		timeFormatVariety: true, parkVariety: true, noCertPct: 10})
+	p.World.IDP.ExpiredRespCert = g.chance("expiredRespCert", 15)
+	fp := []int{0, 0, 0, 10}[g.intn("faultPct", 4)]
 	nh := g.rng("nhosts", 1, 3)
 	n := g.rng("nsteps", 4, 30)
 	nsp := len(p.World.SPs)
@@ -301,7 +303,11 @@ func (g G) planC11() *Plan {
 		case 5:
 			m = &MsgSpec{Kind: "cert"}
 		case 6:
-			m = &MsgSpec{Kind: "callback", Session: g.intn(lab+".sess", 4), IDMode: "session"}
+			// also callbacks that fail early: unknown / empty id, a request deleted meanwhile
+			m = &MsgSpec{Kind: "callback", Session: g.intn(lab+".sess", 4), IDMode: g.pick(lab+".idmode", "session", "session", "session", "unknown", "empty")}
+			if g.chance(lab+".del", 15) {
+				p.Steps = append(p.Steps, Step{K: "mutate", Mut: "deleteRequest", A: m.Session})
+			}
 		case 7:
 			m = g.drawSSO(lab+".sso", &p.World, g.intn(lab+".sp", nsp))
 			if g.chance(lab+".unsigned", 60) {
@@ -319,6 +325,10 @@ func (g G) planC11() *Plan {
 		}
 		g.drawHost(lab+".host", &p.World.IDP, g.intn(lab+".hosti", nh), m)
 		m.Replica = g.intn(lab+".rep", 2)
+		if fp > 0 && g.chance(lab+".fa", fp) {
+			// an error reply still has to carry the published issuer
+			m.FaultAt, m.FaultKind = g.rng(lab+".fan", 1, 4), "err"
+		}
 		p.Steps = append(p.Steps, Step{K: "send", Msg: m})
 		if g.chance(lab+".auto", 60) {
 			p.Steps = append(p.Steps, Step{K: "finish", Pick: 99})
